@@ -109,8 +109,9 @@ Thorough(x) ==
     \/ /\ Dev(x) = 2
        /\ (x.jit_compile => (~x.no_id_cached /\ Deviates(x, 1) /\ RepPairing(x)))
        /\ ((x.lazy_call /\ Deviates(x, 1)) => RepPairing(x))
-       /\ ((x.nll # "default" /\ Deviates(x, 1)) =>
-              (RepPairing(x) \/ (x.amp_model = "base_factor" /\ x.preprocessor = "default")))
+       /\ ((x.nll # "default" /\ Deviates(x, 1)) => RepPairing(x))
+       /\ ((x.lazy_call /\ x.use_tf_function) => x.no_id_cached)
+       /\ ~(x.lazy_call /\ x.float_shape)
        /\ ((x.lazy_call /\ x.nll # "default") => x.nll \in {"cached_int", "cached_amp"})
        /\ ((x.use_tf_function /\ x.nll # "default") => ~x.no_id_cached)
 
